@@ -119,6 +119,30 @@ def run_common(ctx, prop, modules, stride, l1_scripts, l1_gen=None):
         found = True
         ctx.violation("%s-l1-crash-%s" % (prop.lower(), f.name), "# implementation died on an L1 history: %s\n--- script\n%s" % (f.text, HC.script_prefix(f.script, f.line)))
     if corr and not found:
+        # failing-input search: the formats of the disagreeing scripts, with lengths beyond every staging buffer
+        import re as _re
+        words = []
+        for f in corr:
+            m = _re.search(r"fmt=([0-9a-fA-F]+)", f.script)
+            if m and int(m.group(1), 16) not in words:
+                words.append(int(m.group(1), 16))
+        for w in words[:3]:
+            for r in W.run_jobs(ctx, W.focused_jobs(ctx, w), updates=True):
+                j = r["job"]
+                for (cat, text, which, line) in r["problems"]:
+                    if cat not in CATS[prop] or not in_scope(prop, j, cat) or known_class(j, cat, text) or found:
+                        continue
+                    found = True
+                    script = {1: r["script1"], 2: r["script2"], 3: r.get("script3", "")}[which]
+                    if which == 2 and cat == "partition":
+                        script = r["script1"] + "# --- the same samples, split:\n" + r["script2"]
+                    ctx.violation("%s-%s-%s-search" % (prop.lower(), j.fmt.name, cat),
+                                  "# %s violated on the implementation's own transcript (found by the search started after the model/implementation correspondence broke on %s)\n"
+                                  "# format %s, %d channel(s), %d Hz, %d frames of %s\n# %s\n--- script\n%s"
+                                  % (prop, corr[0].name, j.fmt.name, j.ch, j.sr, j.n, j.ty, text, script if line is None else HC.script_prefix(script, line)))
+            if found:
+                break
+    if corr and not found:
         f = corr[0]
         sl = f.script.strip().split("\n")
         ctx.violation("%s-correspondence-%s" % (prop.lower(), f.name),
